@@ -483,7 +483,22 @@ def run(ctx):
     hpm = U.parents(hs.node)
     rr = [c for c in U.calls(hs.node) if U.attr_name(c) == 'read_response']
     in_loop = [c for c in rr if any(isinstance(a, (ast.For, ast.While)) for a in U.ancestors(c, hpm))]
-    ck.expect(len(rr) == 1 and not in_loop, 'C05-D3', hs.qual, 'one read_response() before begin_response (no loop)',
+    # ... unless what listens during the loop is a buffer that is emptied before every block and handed over to the recorder's
+    # notifier afterwards (C04-D4 checks that hand-over): then only the last block reaches the record
+    from .c04 import buffered_forwarder
+    hdefs = U.local_defs(hs.node)
+    adds_before = []
+    for c_ in U.calls(hs.node):
+        if U.attr_name(c_) == 'add_read_listener' and c_.args and rr and c_.lineno < min(x.lineno for x in rr):
+            adds_before.append(c_)
+    buffered = bool(adds_before) and all(isinstance(c_.args[0], ast.Name) and buffered_forwarder(hs.node, hdefs, c_.args[0].id) is not None for c_ in adds_before)
+    if buffered and in_loop:
+        lst = buffered_forwarder(hs.node, hdefs, adds_before[0].args[0].id)[0]
+        loop = next(a for a in U.ancestors(in_loop[0], hpm) if isinstance(a, (ast.For, ast.While)))
+        clr = [x for x in ast.walk(loop) if (isinstance(x, ast.Delete) and any(isinstance(t, ast.Subscript) and isinstance(t.value, ast.Name) and t.value.id == lst for t in x.targets))
+               or (isinstance(x, ast.Call) and U.attr_name(x) == 'clear' and isinstance(x.func.value, ast.Name) and x.func.value.id == lst)]
+        buffered = bool(clr) and min(x.lineno for x in clr) < in_loop[0].lineno
+    ck.expect((len(rr) == 1 and not in_loop) or buffered, 'C05-D3', hs.qual, 'one header block reaches the response record before begin_response',
               'Session.start reads %s header block(s)%s while the recorder\'s listener is attached: the response record then holds more than '
               'one header block and the payload offset (taken at begin_response) points behind them - WARC-Payload-Digest is not the digest of '
               'what follows the first header block' % (len(rr), ', one of them in a loop' if in_loop else ''), hs.loc(in_loop[0] if in_loop else (rr[1] if len(rr) > 1 else None)))
